@@ -129,8 +129,8 @@ fn gen_polyline(rng: &mut Rng, tier: Tier, cases: &mut Vec<Case>) {
         }
         cases.push(polyline_case("polyline-boundary", prec, &b));
         let n_rand = match tier {
-            Tier::Quick => 70,
-            Tier::Thorough => 1500,
+            Tier::Quick => 300,
+            Tier::Thorough => 4000,
         };
         for i in 0..n_rand {
             let style = rng.below(6);
@@ -150,8 +150,8 @@ fn gen_zigzag(rng: &mut Rng, tier: Tier, cases: &mut Vec<Case>) {
     }
     cases.push(c);
     let n = match tier {
-        Tier::Quick => 30,
-        Tier::Thorough => 3000,
+        Tier::Quick => 100,
+        Tier::Thorough => 5000,
     };
     for _ in 0..n {
         let mut c = Case::new("zigzag-random");
@@ -194,8 +194,8 @@ fn gen_choose_unrank(rng: &mut Rng, tier: Tier, cases: &mut Vec<Case>) {
     }
     let t = pascal();
     let reps = match tier {
-        Tier::Quick => 1,
-        Tier::Thorough => 40,
+        Tier::Quick => 4,
+        Tier::Thorough => 60,
     };
     for rep in 0..reps {
         for w in 0..=64usize {
@@ -240,8 +240,8 @@ fn gen_bit_iters(rng: &mut Rng, tier: Tier, cases: &mut Vec<Case>) {
         cases.push(c);
     }
     let n = match tier {
-        Tier::Quick => 60,
-        Tier::Thorough => 2000,
+        Tier::Quick => 200,
+        Tier::Thorough => 4000,
     };
     for _ in 0..n {
         let mut c = Case::new("subsets-random");
@@ -298,8 +298,8 @@ fn gen_partition_ids(rng: &mut Rng, tier: Tier, cases: &mut Vec<Case>) {
         cases.push(c);
     }
     let n = match tier {
-        Tier::Quick => 120,
-        Tier::Thorough => 6000,
+        Tier::Quick => 600,
+        Tier::Thorough => 20000,
     };
     for _ in 0..n {
         let mut c = Case::new("id-random");
@@ -310,7 +310,7 @@ fn gen_partition_ids(rng: &mut Rng, tier: Tier, cases: &mut Vec<Case>) {
     }
     // sweeps: every id of a range through a checksum (quick: 2^20 ids, thorough: 2^27)
     let (win, nwin) = match tier {
-        Tier::Quick => (1u64 << 14, 24),
+        Tier::Quick => (1u64 << 16, 28),
         Tier::Thorough => (1u64 << 21, 56),
     };
     let mut sw = |lo: u64, hi: u64, fam: &str| {
@@ -330,8 +330,8 @@ fn gen_partition_ids(rng: &mut Rng, tier: Tier, cases: &mut Vec<Case>) {
     }
     // LCA: structured pairs
     let m = match tier {
-        Tier::Quick => 150,
-        Tier::Thorough => 5000,
+        Tier::Quick => 600,
+        Tier::Thorough => 20000,
     };
     let mut c = Case::new("lca-fixed");
     for (a, b) in [(1u64, 1u64), (1, 2), (2, 3), (8, 9), (9, 15), (8, 5), (8, 7), (128, 2), (1, 15), (0xFFFF_FFFF, 0xFFFF_FFFE), (0xFFFF_FFFF, 0x8000_0000), (0x8000_0000, 1), (0xFFFF_FFFF, 0x7FFF_FFFF), (0xC000_0000, 0x8000_0001)] {
@@ -374,8 +374,8 @@ fn gen_partition_ids(rng: &mut Rng, tier: Tier, cases: &mut Vec<Case>) {
     }
     // level directory
     let nl = match tier {
-        Tier::Quick => 60,
-        Tier::Thorough => 2000,
+        Tier::Quick => 300,
+        Tier::Thorough => 6000,
     };
     for _ in 0..nl {
         let nlev = 1 + rng.below(6);
@@ -455,8 +455,8 @@ fn gen_huffman(rng: &mut Rng, tier: Tier, cases: &mut Vec<Case>) {
         }
     }
     let m = match tier {
-        Tier::Quick => 400,
-        Tier::Thorough => 20000,
+        Tier::Quick => 2500,
+        Tier::Thorough => 60000,
     };
     for _ in 0..m {
         let n = 2 + rng.below(11) as usize;
